@@ -490,7 +490,7 @@ mod iup {
             s.oracle("iup-values-unchanged", values_ok, || c.req(), || canon.clone());
             let inferred = infer_contour(cs, ds, &keep);
             // the Lean specification `inferSpec` (used by the theorems) against this independent reference
-            if !cs.is_empty() && cs.len() <= 64 {
+            if cs.len() >= 3 && cs.len() <= 64 && (cs[0].0 + 3 * ds[0].0 + cs[1].1 + cs.len() as i64).rem_euclid(3) == 0 {
                 let red = |f: &Fr| { let g = gcd(f.0, f.1).max(1); format!("{}/{}", f.0 / g, f.1 / g) };
                 let canon_inf: Vec<String> = inferred.iter().enumerate().map(|(k, inf)| match inf {
                     None => format!("{}/1,{}/1", ds[k].0, ds[k].1),
@@ -756,7 +756,7 @@ mod reader {
         let spec = Case { pts: vec![(245, 630), (260, 700), (305, 680)], has: vec![true, false, true], ends: vec![2],
             out: vec![((245 + 28) << 16, (630 - 62) << 16), (260 << 16, 700 << 16), ((305 - 42) << 16, (680 - 57) << 16)] };
         check(s, &spec, true);
-        let n = if cfg.thorough() { 200_000 } else { 20_000 };
+        let n = if cfg.thorough() { 600_000 } else { 20_000 };
         for i in 0..n {
             let weird = i % 12 == 0;
             let wrap = i % 50 == 7;
@@ -1005,6 +1005,18 @@ mod e2e {
             s.oracle("gvar-readback-tuple-count", tuples.len() == g.tuples.len(), desc, || format!("gid {gid}: {} vs {}", tuples.len(), g.tuples.len()));
             let hdr_count = be16(vd_bytes(&gvar, gid), 0);
             s.count(if hdr_count & 0x8000 != 0 { "gvar:glyph-shared-points" } else { "gvar:glyph-no-shared-points" });
+            {
+                // tuple header flags straight from the bytes
+                let b = vd_bytes(&gvar, gid);
+                let mut o = 4;
+                for _ in 0..(hdr_count & 0x0fff) {
+                    if o + 4 > b.len() { break; }
+                    let ti = be16(b, o + 2);
+                    s.count(if ti & 0x2000 != 0 { "gvar:tuple-private-points" } else { "gvar:tuple-uses-shared-points" });
+                    s.count(if ti & 0x8000 != 0 { "gvar:tuple-embedded-peak" } else { "gvar:tuple-shared-peak" });
+                    o += 4 + if ti & 0x8000 != 0 { 2 * axes } else { 0 } + if ti & 0x4000 != 0 { 4 * axes } else { 0 };
+                }
+            }
             for (t, spec) in tuples.iter().zip(&g.tuples) {
                 let peak: Vec<i16> = t.peak().values.iter().map(|v| v.get().to_bits()).collect();
                 let want_peak: Vec<i16> = spec.tents.iter().map(|x| x.0).collect();
@@ -1175,7 +1187,7 @@ mod e2e {
         let t2 = Tup { tents: vec![(16384, None)], deltas: vec![(0, 0); 7], req: vec![false; 7], tol: Some((1, 2)) };
         check_font(s, rng, &[Gl { contours: tri.clone(), tuples: vec![t1.clone(), t2.clone()] }], 1, true);
         check_font(s, rng, &[Gl { contours: tri.clone(), tuples: vec![t2] }, Gl { contours: tri, tuples: vec![t1] }], 1, true);
-        let n = if cfg.thorough() { 2500 } else { 250 };
+        let n = if cfg.thorough() { 10_000 } else { 250 };
         for _ in 0..n {
             let axes = 1 + rng.below(3) as usize;
             let ng = 1 + rng.below(5) as usize;
@@ -1184,11 +1196,11 @@ mod e2e {
             check_font(s, rng, &glyphs, axes, true);
         }
         // big fonts: enough variation data for long offsets
-        let nbig = if cfg.thorough() { 6 } else { 2 };
+        let nbig = if cfg.thorough() { 12 } else { 2 };
         for i in 0..nbig {
             let axes = 2;
             let mut pool = vec![];
-            let ng = if i % 2 == 0 { 46 } else { 30 };
+            let ng = if i % 2 == 0 { 46 } else { 60 };
             let glyphs: Vec<Gl> = (0..ng).map(|_| { let mut g = gen_glyph(rng, axes, &mut pool, true);
                 while g.tuples.len() < 3 { let mut h = gen_glyph(rng, axes, &mut pool, true); h.contours = g.contours.clone();
                     if let Some(t) = h.tuples.pop() { if t.deltas.len() == g.points().len() + 4 { g.tuples.push(t); } } }
